@@ -218,6 +218,13 @@ theorem first_acceptable (cfg : Params) (hc : cfg.option.isSome = true) (os : Li
 /-- After a reset the negotiator is the freshly constructed one. -/
 theorem reset_fresh (st : NegSt) : st.reset = ({} : NegSt) := rfl
 
+/-- After Reset the answer to an offer is the one a NEW negotiator gives with the parameters the extension has
+    NOW: nothing of an earlier upgrade — its offer, its answer, the parameters it was answered with — survives
+    (the owner may have changed `Extension.Parameters` in between). -/
+theorem answer_after_reset (old new : Params) (st : NegSt) (o o' : Opt) :
+    negotiate new (negotiate old st o).2.reset o' = negotiate new {} o' := by
+  rw [reset_fresh]
+
 /-! ### encoder / parser -/
 
 theorem digitsVal_spec (v : Bytes) (n : Nat) (h : digitsVal v = some n) :
